@@ -63,6 +63,11 @@ MPoints   == {K("MultiPoint", L(<<p>>)) : p \in Pool} \cup {K("MultiPoint", L(<<
 RectCCW(s, l, e, h) == <<P(s, l), P(e, l), P(e, h), P(s, h)>>
 RectCW(s, l, e, h)  == <<P(s, l), P(s, h), P(e, h), P(e, l)>>
 Closed(ps) == Append(ps, ps[1])
+\* closed lines: the last vertex is the first (first time = last time: still the normal form), 3, 4, 5 and many vertices
+ClosedLines == {K("LineString", L(<<P(0, 0), P(2, 3), P(0, 0)>>)), K("LineString", L(<<P(0, 0), P(2, 0), P(2, 2), P(0, 0)>>)),
+                K("LineString", L(<<P(1, 1), P(3, 1), P(3, FMAXT), P(0, 2), P(1, 1)>>)), K("LineString", L(<<P(2, 2), P(2, 2), P(2, 2), P(2, 2)>>)),
+                K("LineString", L(<<P(4, 0), P(0, 0), P(1, 3), P(4, 0)>>))}
+               \cup {K("LineString", L(Append(ps, ps[1]))) : ps \in {RectCCW(tp[1], fp[1], tp[2], fp[2]) : tp \in TPairs, fp \in {<<0, FMAXT>>, <<1, 3>>}}}
 TS == {p \in {0, 1, 3, 4} \X {0, 1, 3, 4} : p[1] < p[2]}
 FS == {p \in {0, 2, FMAXT} \X {0, 2, FMAXT} : p[1] < p[2]}
 RectRings == UNION {{L(RectCCW(tp[1], fp[1], tp[2], fp[2])), L(Closed(RectCCW(tp[1], fp[1], tp[2], fp[2]))),
@@ -92,7 +97,7 @@ MPolys    == {K("MultiPolygon", L(<<a>>)) : a \in PolyPool}
              \cup {K("MultiPolygon", L(<<x[1], x[2]>>)) : x \in {y \in PolyPool \X PolyPool : y[1] # y[2]}}
              \cup {K("MultiPolygon", L(<<x[1], x[2], x[3]>>)) : x \in {y \in PolyPool \X PolyPool \X PolyPool : y[1] # y[2] /\ y[2] # y[3] /\ y[1] # y[3]}}
 Cases == IF Tier = "cov" THEN Stamps \cup Intervals \cup Points \cup PolysH \cup MPolys
-         ELSE Stamps \cup Intervals \cup Points \cup Boxes \cup Lines2 \cup Lines3 \cup MPoints \cup Polys \cup PolysH \cup MLines \cup MPolys
+         ELSE ClosedLines \cup Stamps \cup Intervals \cup Points \cup Boxes \cup Lines2 \cup Lines3 \cup MPoints \cup Polys \cup PolysH \cup MLines \cup MPolys
 
 (* ---- histories: regroupings of one vertex sequence ---- *)
 \* all ways to cut 1..n into consecutive blocks of at least m elements: sequences of block lengths
@@ -144,6 +149,7 @@ Shell(n) == L(RingWH(n \div 2 - 3, 3, 0, 0))                             \* n ve
 HoleIn(n) == L(RingWH(n \div 2 - 7, 1, 2, 1))                            \* inside Shell(n)
 LongCases ==
     {K("LineString", L(LongPts(p, n))) : p \in {"plateau", "diagonal", "steps", "repeat"}, n \in Sizes \cup {n - 1 : n \in Sizes}}
+    \cup {K("LineString", L(Append(RingWH(n \div 2 - 3, 3, 0, 0), P(0, 0)))) : n \in Sizes}                  \* long and closed
     \cup {K("MultiLineString", L(<<L(LongPts(p, n)), L(<<P(0, 0), P(1, 2)>>)>>)) : p \in {"plateau", "steps"}, n \in Sizes}
     \cup {K("MultiLineString", L(<<L(<<P(0, 3), P(2, 1)>>), L(LongPts("diagonal", n)), L(LongPts("repeat", n))>>)) : n \in Sizes}
     \cup {K("Polygon", L(<<Shell(n)>>)) : n \in Sizes} \cup {K("Polygon", L(<<Shell(n), HoleIn(n)>>)) : n \in Sizes}
